@@ -2,7 +2,7 @@
 (* Exhaustive model check of the two-pass algorithm against the reference, over every string of
    length <= MaxLen over the property's 7-symbol alphabet; also exports the case set. *)
 EXTENDS HTMLEscape, TLC, Json, FiniteSets, SequencesExt
-CONSTANTS MaxLen, GenLen
+CONSTANTS MaxLen, GenLen, MaxRun
 Alphabet == {LT, GT, AMP, DQ, SQ, 97, 59}       \* five specials, 'a', ';'
 VARIABLE s
 Init == s = <<>>
@@ -11,6 +11,12 @@ ImplMeetsRef == Ok(s, TwoPass(s))
 NoZeroByte == \A k \in 1..Len(TwoPass(s)) : TwoPass(s)[k] # 0
 LenExact == LET p == Pass1(s, 0, 0, 0) IN Len(TwoPass(s)) = Len(s) + p[1]
 \* case export (inputs only)
-Cases == LET S == SetToSeq(SeqsUpTo(Alphabet, GenLen)) IN [i \in 1..Len(S) |-> [id |-> i, s |-> S[i]]]
+\* second space: LONG RUNS of one symbol followed by at most two of another - the lengths at which an implementation
+\* may switch strategy or size a buffer (16, 32, 64, 128/5 ...) are beyond the exhaustive bound; the model is checked
+\* on them as well
+Rep(c, n) == [k \in 1..n |-> c]
+Runs == {Rep(c1, n1) \o Rep(c2, n2) : c1 \in Alphabet, c2 \in Alphabet, n1 \in 0..MaxRun, n2 \in 0..2}
+ASSUME \A r \in Runs : Ok(r, TwoPass(r)) /\ Len(TwoPass(r)) = Len(r) + Pass1(r, 0, 0, 0)[1]
+Cases == LET S == SetToSeq(SeqsUpTo(Alphabet, GenLen) \cup Runs) IN [i \in 1..Len(S) |-> [id |-> i, s |-> S[i]]]
 ASSUME ndJsonSerialize("cases.ndjson", Cases)
 =============================================================================
